@@ -28,13 +28,13 @@ TEXT["C13"] = ("Theorems on the comparison model as coded (run tables split at p
                "over a run decides exactly the field-wise equality over the run, the run table covers every field exactly once), FixedSize "
                "fields of different sizes are never equal in either direction, equality is reflexive and symmetric, != is the negation; "
                "vectors on the element-wise path are equal exactly when they hold the same number of elements with equal field sizes and "
-               "values; on the whole-buffer path different fixed sizes are never equal. PARTIAL: on the whole-buffer path 'equal bytes = equal "
-               "elements for equal fixed sizes' is not a theorem. Correspondence: all six operators on every operand kind over a two-value "
+               "values, on the element-wise path and on the whole-buffer path alike (there: for equal fixed sizes; different fixed sizes are never "
+               "equal). Correspondence: all six operators on every operand kind over a two-value "
                "domain, vectors built with different fixed sizes, junk-filled memory, oracle monitor.")
 TEXT["C14"] = ("Theorems: >, <=, >= are defined from < as the property states; element < (a conjunction of strict orders over "
                "parameters/memcmp runs) is irreflexive, asymmetric and transitive for every parameter list; vector < is irreflexive and "
                "asymmetric on both code paths, a strict weak order on the whole-buffer path, and the lexicographical comparison under "
-               "element < on the element-wise path. Transitivity of vector < on the element-wise path is FALSE for the code: the full "
+               "element < on BOTH paths (whole-buffer path: bytes of equal-sized elements, single memcmp run). Transitivity of vector < on the element-wise path is FALSE for the code: the full "
                "statement is kept with a kernel-checked counter-witness (known finding; the repair is rejected by an existing test). "
                "Correspondence: all operators, operand kinds, triples for transitivity over a two-value domain.")
 TEXT["C01"] = ("Refinement theorems, unbounded in history length: for every well-formed parameter list, every sequence of emplace_back / "
